@@ -267,3 +267,11 @@ def get_field(obj, *path):
 def ensure_field(ex, obj, key, ty):
     obj = deref(obj)
     return deref(ex.field(obj, key[0], key[1], ty).v)
+
+
+_fresh = [0]
+
+
+def fresh(prefix):
+    _fresh[0] += 1
+    return f"{prefix}#{_fresh[0]}"
